@@ -160,7 +160,8 @@ class SyncedList(SyncedCollection, MutableSequence):
                     self._data[i] = self._from_base(data[i], parent=self)
 
                 if len(self._data) > len(data):
-                    self._data = self._data[: len(data)]
+                    # Truncate in place: buffers may hold a reference to the list.
+                    del self._data[len(data) :]
                 else:
                     new_data = data[len(self) :]
                     if not _validate:
